@@ -1378,6 +1378,7 @@ func runC04(c *core.Ctx) core.Meta {
 	checkDstRegisterFile(c, t)
 	checkVOP3PModifiers(c, t)
 	checkModifierFlags(c)
+	checkOperandsFresh(c)
 	checkFlatOpcodes(c, t)
 	checkDSOperands(c, t)
 	checkFieldCoverage(c, core.NewLocalProv(c))
